@@ -19,7 +19,8 @@ decode consumes **exactly** those `|clientMetas v|` accounts, in order, returns 
 and yields a well-typed set denoting `v` (`toClient sv = resolve v`: same present/absent choices —
 absent optionals decode as absent —, same lengths, same keys with defaults filled in). If moreover
 the accounts have at least the metas' signer/writable flags and no explicit key contradicts a fixed
-address, validation passes. -/
+address, and the static meta of every single account covers what its validation checks
+(`metaCovers`, see `meta_override_witness`), validation passes. -/
 theorem decode_client_roundtrip (pid : Key) (s : SetShape) (arg : DecodeArg) (v : ClientVal)
     (accts tail : List Acct)
     (hfits : fits pid s arg v = true)
@@ -29,7 +30,8 @@ theorem decode_client_roundtrip (pid : Key) (s : SetShape) (arg : DecodeArg) (v 
       accts.length = (clientMetas pid s v).length ∧
       svTyped s sv = true ∧
       toClient s sv = resolve s v ∧
-      (addrOk s v = true → All2 Covers accts (clientMetas pid s v) → validate s sv = .ok ()) := by
+      (metaCovers s = true → addrOk s v = true → All2 Covers accts (clientMetas pid s v) →
+        validate s sv = .ok ()) := by
   obtain ⟨sv, h1, h2, h3, h4⟩ := rt_all pid s arg v accts tail hfits hkeys htail
   exact ⟨sv, h1, hkeys.length_eq, h2, h3, h4⟩
 
@@ -45,7 +47,7 @@ theorem placeholder_decodes_absent (pid : Key) (s : SetShape) (arg : DecodeArg) 
 /-- The other side conditions are needed too: a `Rest` that is not last swallows the accounts of
 the fields after it (here: `struct { r: Rest<AccountInfo>, z: AccountInfo }`, one rest element). -/
 theorem rest_not_last_witness :
-    let s := SetShape.struct [.rest (.single false false none), .single false false none]
+    let s := SetShape.struct [.rest (.single false false none []), .single false false none []]
     let v := ClientVal.many [.many [.key (some [1])], .key (some [2])]
     let accts : List Acct := [⟨[1], false, false⟩, ⟨[2], false, false⟩]
     All2 KeyEq accts (clientMetas [9] s v) ∧
@@ -78,8 +80,8 @@ theorem data_roundtrip_harness (s : SetShape) (arg : DecodeArg) (run : RunArgs)
    (so they do not depend on the runtime flags of the accounts);
 2. given the program's account `p`, exactly one info is written per meta, with the meta's key
    (`p` standing in for absent optionals), so `|infos| = |metas|` = both indices written;
-3. away from arrays of optionals the builder does pass `p` whenever it is needed
-   (`ContainsOption`) — see `cpi_array_option_witness` for the exception;
+3. the builder does pass `p` whenever it is needed (`ContainsOption`; true for arrays of optionals
+   too since /repo cf061c0 — before that fix this clause failed, see `notes/C14.md`);
 4. a set whose `AccountLen` is not the dynamic sentinel writes exactly `AccountLen` accounts;
 5. no meta asks for a privilege other than the static `SingleSetMeta` of one of the set's single
    accounts (or none at all, for placeholders). -/
@@ -88,27 +90,25 @@ theorem cpi_matches_client (pid : Key) (p : Acct) (hp : p.key = pid) (s : SetSha
     cpiMetas pid s sv = clientMetas pid s (toClient s sv) ∧
     (∃ infos, cpiInfos (some p) s sv = .ok infos ∧ infos.length = (cpiMetas pid s sv).length ∧
       infos.map (·.key) = (cpiMetas pid s sv).map (·.key)) ∧
-    (arrOptFree s = true →
-      cpiInfos (if containsOption s then some p else none) s sv = cpiInfos (some p) s sv) ∧
+    cpiInfos (if containsOption s then some p else none) s sv = cpiInfos (some p) s sv ∧
     (accountLen s < dynLen → (cpiMetas pid s sv).length = accountLen s) ∧
     (∀ m ∈ cpiMetas pid s sv, (m.signer, m.writable) ∈ (false, false) :: staticFlags s) := by
   refine ⟨cpiMetas_eq_client pid s sv hty, ?_, ?_, cpiMetas_length_fixed pid s sv hty, ?_⟩
   · obtain ⟨l, h1, h2⟩ := cpiInfos_some p s sv hty
     rw [hp] at h2
     exact ⟨l, h1, by simpa using congrArg List.length h2, h2⟩
-  · intro harr
-    cases hc : containsOption s with
+  · cases hc : containsOption s with
     | true => simp
-    | false => simpa using cpiInfos_optFree p s sv (optFree_of_containsOption_false s harr hc)
+    | false => simpa using cpiInfos_optFree p s sv (optFree_of_containsOption_false s hc)
   · intro m hm
     rw [cpiMetas_eq_client pid s sv hty] at hm
     exact clientMetas_flags pid s _ m hm
 
-/-- What `CpiBuilder::invoke_signed` hands to the runtime, for shapes without arrays of optionals
-whose `AccountLen` has a `HandleCpiArray` impl: the client metas, as many infos, and a declared
+/-- What `CpiBuilder::invoke_signed` hands to the runtime, for every shape whose `AccountLen` has a
+`HandleCpiArray` impl: the client metas, as many infos, and a declared
 array length that is met exactly for fixed-size sets and is 64 (≥ what is written) for dynamic ones. -/
 theorem cpi_view (pid : Key) (p : Acct) (hp : p.key = pid) (s : SetShape) (sv : SetVal)
-    (hty : svTyped s sv = true) (harr : arrOptFree s = true) (d : Nat) (hd : declaredLen s = some d)
+    (hty : svTyped s sv = true) (d : Nat) (hd : declaredLen s = some d)
     (hroom : (cpiMetas pid s sv).length ≤ d) :
     ∃ view, cpi pid (some p) s sv = .ok view ∧ view.metas = clientMetas pid s (toClient s sv) ∧
       view.infos.length = view.metas.length ∧ view.declared = d ∧
@@ -116,7 +116,7 @@ theorem cpi_view (pid : Key) (p : Acct) (hp : p.key = pid) (s : SetShape) (sv : 
   obtain ⟨hm, ⟨infos, hi, hil, _⟩, hprog, hfix, _⟩ := cpi_matches_client pid p hp s sv hty
   refine ⟨{ metas := cpiMetas pid s sv, infos := infos, declared := d }, ?_, hm, hil, rfl, ?_⟩
   · have : ¬ (d < infos.length ∨ d < (cpiMetas pid s sv).length) := by omega
-    simp only [cpi, hd, hprog harr, hi, if_neg this]
+    simp only [cpi, hd, hprog, hi, if_neg this]
   · intro hl
     simp only [declaredLen] at hd
     have hne : accountLen s ≠ dynLen := by omega
@@ -125,28 +125,41 @@ theorem cpi_view (pid : Key) (p : Acct) (hp : p.key = pid) (s : SetShape) (sv : 
     · simp only [Option.some.injEq] at hd; rw [← hd]; exact hfix hl
     · simp at hd
 
-/-- **Finding.** `[T; N]` declares `ContainsOption = False` whatever `T` says
-(`impls/array.rs:21`), so for `struct { a: [Option<AccountInfo>; 1] }` with the element absent the
-builder has no program account and the CPI fails with `MissingOptionalProgram`, although the client
-view of the same value is a perfectly good instruction. -/
-theorem cpi_array_option_witness :
-    let s := SetShape.struct [.arr 1 (.opt (.single false false none))]
+/-- Regression for the defect fixed in /repo cf061c0 (`[T; N]` used to declare
+`ContainsOption = False`): `struct { a: [Option<AccountInfo>; 1] }` with the element absent now
+gets the program account and its CPI carries the client's placeholder meta. -/
+theorem cpi_array_option_regression :
+    let s := SetShape.struct [.arr 1 (.opt (.single false false none []))]
     let sv := SetVal.many [.many [.absent]]
-    svTyped s sv = true ∧ clientMetas [9] s (toClient s sv) = [placeholder [9]] ∧
-    cpi [9] (some ⟨[9], false, false⟩) s sv = .error .missingOptionalProgram :=
+    svTyped s sv = true ∧ containsOption s = true ∧
+    (cpi [9] (some ⟨[9], false, false⟩) s sv).toOption.map (fun w => (w.metas, w.infos.length, w.declared))
+      = some (clientMetas [9] s (toClient s sv), 1, 1) :=
+  ⟨rfl, rfl, rfl⟩
+
+/-- `metaCovers` is needed: if a single account's static meta lacks a flag its validation checks,
+the client builds an instruction that its own program rejects — accounts carrying exactly the
+client metas' flags fail validation. (This was the state of `MaybeSigner<false, Signer<T>>` /
+`MaybeMut<false, Mut<T>>` before the /repo fix of their `SingleSetMeta`: meta `signer = false` over
+an inner `check_signer`; it remains possible with a hand-written `#[single_account_set(meta = …)]`.) -/
+theorem meta_override_witness :
+    let s := SetShape.single false false none [.signer]
+    let v := ClientVal.key (some [1])
+    metaCovers s = false ∧ clientMetas [9] s v = [⟨[1], false, false⟩] ∧
+    (decode [9] s .unit [⟨[1], false, false⟩]).toOption.map (fun r => validate s r.1)
+      = some (.error .signer) :=
   ⟨rfl, rfl, rfl⟩
 
 /-- **All three views, end to end.** The instruction the client builds for `(arg, run, v)` —
 `discriminant_i ++ borsh(arg) ++ borsh(run)` with metas `clientMetas v` — goes through the program's
 own entry path (dispatch, borsh, decode, validate) on any accounts that carry the metas' keys with at
-least the metas' privileges: every account is used, none is left, the decoded set denotes `v`,
+least the metas' privileges (static metas covering the validation checks): every account is used, none is left, the decoded set denotes `v`,
 validation passes, the run arguments come back, and the CPI metas of the decoded set are the client
 metas again. -/
 theorem entry_accepts_client (table : List (List Nat)) (hnd : table.Nodup)
     (hlen : ∀ d ∈ table, d.length = 8) (i : Nat) (hi : i < table.length)
     (pid : Key) (s : SetShape) (arg : DecodeArg) (v : ClientVal) (run : RunArgs) (accts : List Acct)
     (hfits : fits pid s arg v = true) (harg : argTyped s arg = true) (hrange : argInRange arg = true)
-    (hrun : run.WF) (haddr : addrOk s v = true)
+    (hrun : run.WF) (hmeta : metaCovers s = true) (haddr : addrOk s v = true)
     (hcov : All2 Covers accts (clientMetas pid s v)) :
     ∃ sv, entry table i pid s (ixData table[i] (serArg arg ++ serRun run)) accts =
         .ok { used := (clientMetas pid s v).length, rem := 0, val := sv, v := .ok (), args := run } ∧
@@ -157,7 +170,7 @@ theorem entry_accepts_client (table : List (List Nat)) (hnd : table.Nodup)
   · have hde := deArg_serArg s arg (serRun run) harg hrange
     have hdr := deRun_serRun run hrun []
     simp only [List.append_nil] at hdr hd
-    simp only [entry, dispatch_ok table hnd hlen i hi, hde, hdr, hd, hval haddr hcov]
+    simp only [entry, dispatch_ok table hnd hlen i hi, hde, hdr, hd, hval hmeta haddr hcov]
     simp [hl]
   · rw [cpiMetas_eq_client pid s sv hty, hcl, clientMetas_resolve pid s v (fits_typed pid s arg v hfits)]
 
@@ -167,33 +180,34 @@ theorem entry_accepts_client (table : List (List Nat)) (hnd : table.Nodup)
 prog: Program<System>, arr: [Mut<_>; 2], rest: Rest<Signer> }` with `opt` absent, `y` present, one
 rest element: it fits, 7 metas, and decoding accounts with those keys gives back the value. -/
 def exShape : SetShape :=
-  .struct [.single true true none, .opt (.single false false none),
-    .struct [.single true false none, .opt (.single false true none)],
-    .single false false (some [0]), .arr 2 (.single false true none), .rest (.single true false none)]
+  .struct [.single true true none [.signer, .writable], .opt (.single false false none []),
+    .struct [.single true false none [.signer], .opt (.single false true none [.writable])],
+    .single false false (some [0]) [], .arr 2 (.single false true none [.writable]),
+    .rest (.single true false none [.signer])]
 def exVal : ClientVal :=
   .many [.key (some [1]), .absent, .many [.key (some [3]), .present (.key (some [4]))], .key none,
     .many [.key (some [5]), .key (some [6])], .many [.key (some [10])]]
 def exArg : DecodeArg := .fields [.unit, .unit, .fields [.unit, .unit], .unit, .unit, .unit]
 
-example : fits [9] exShape exArg exVal = true ∧ addrOk exShape exVal = true ∧
+example : fits [9] exShape exArg exVal = true ∧ addrOk exShape exVal = true ∧ metaCovers exShape = true ∧
     (clientMetas [9] exShape exVal).map (·.key) = [[1], [9], [3], [4], [0], [5], [6], [10]] ∧
-    argOf exShape exVal = exArg := ⟨rfl, rfl, rfl, rfl⟩
+    argOf exShape exVal = exArg := ⟨rfl, rfl, rfl, rfl, rfl⟩
 
 example : (decode [9] exShape exArg ((clientMetas [9] exShape exVal).map
       (fun m => { key := m.key, signer := m.signer, writable := m.writable }))).toOption.map
       (fun r => (toClient exShape r.1, r.2.length)) = some (resolve exShape exVal, 0) := rfl
 
 /-- the round trip is not a tautology: a present optional whose key is the program id violates `fits` … -/
-example : fits [9] (.opt (.single false false none)) .unit (.present (.key (some [9]))) = false := by decide
+example : fits [9] (.opt (.single false false none [])) .unit (.present (.key (some [9]))) = false := by decide
 /-- … and indeed decodes as absent. -/
-example : decode [9] (.opt (.single false false none)) .unit [⟨[9], false, false⟩] = .ok (.absent, []) := rfl
+example : decode [9] (.opt (.single false false none [])) .unit [⟨[9], false, false⟩] = .ok (.absent, []) := rfl
 
 /-- the data round trip's hypotheses hold for real borsh-like codecs (here: the harness types) -/
 example : deRun (serRun ⟨7, 300, true, [1, 2]⟩ ++ [5]) = some (⟨7, 300, true, [1, 2]⟩, [5]) := by decide
 example : dispatch [[1,1,1,1,1,1,1,1], [2,2,2,2,2,2,2,2]] (ixData [2,2,2,2,2,2,2,2] [7]) = some (1, [7]) := by decide
 
 /-- fixed-size vs dynamic declared lengths -/
-example : declaredLen (.struct [.arr 2 (.single false true none), .opt (.single true false none)]) = some 3 ∧
-    declaredLen exShape = some 64 ∧ declaredLen (.arr 70 (.single false false none)) = none := by decide
+example : declaredLen (.struct [.arr 2 (.single false true none [.writable]), .opt (.single true false none [.signer])]) = some 3 ∧
+    declaredLen exShape = some 64 ∧ declaredLen (.arr 70 (.single false false none [])) = none := by decide
 
 end Account.C14
